@@ -56,7 +56,8 @@ def load_units():
         try:
             meta = json.loads(m.group(1))
         except Exception as e:
-            raise ToolError('%s: bad UNIT json: %s' % (path, e))
+            print('TOOL: skipping %s: bad UNIT json: %s' % (path, e), file=sys.stderr)
+            continue
         base = os.path.splitext(os.path.relpath(path, os.path.join(VERIF, 'units')))[0].replace('/', '.')
         variants = meta.pop('variants', None) or [{}]
         for v in variants:
